@@ -990,6 +990,54 @@ fn check_e2e(cx: &mut Cx, t: &T, binds: &Binds)
 		}
 	}
 	cx.report.hit(&format!("e2e included file: {multi_ok} of 12 variants assemble"));
+
+	// the names come from the INCLUDER: it declares them `.global`, the included file `.import`s them and holds the statements; the
+	// definitions stand above or below the `.include` (and one level further up, through a file in between)
+	let decls: String = names.iter().map(|(n, _)| format!(".global {n};\n")).collect();
+	let imports: String = names.iter().map(|(n, _)| format!(".import {n};\n")).collect();
+	let defs = format!("{defs_now}{defs_later}");
+	let single_declared_ok = results[3].1.is_ok();
+	let variants: [(&str, String, Option<String>, bool); 5] = [
+		("imported, defined above the include", format!(".addr 0x100;\n{defs}{decls}.include \"inc.asm\";\n"), None, true),
+		("imported, declared above and defined below the include", format!(".addr 0x100;\n{decls}.include \"inc.asm\";\n{defs}"), None, single_declared_ok),
+		("imported, declared above, some defined above and some below the include", format!(".addr 0x100;\n{decls}{defs_now}.include \"inc.asm\";\n{defs_later}"), None, single_declared_ok),
+		("imported through a file in between, defined above", format!(".addr 0x100;\n{defs}{decls}.include \"mid.asm\";\n"), Some(format!("{imports}.include \"inc.asm\";\n")), true),
+		("imported through a file in between, defined below", format!(".addr 0x100;\n{decls}.include \"mid.asm\";\n{defs}"), Some(format!("{imports}.include \"inc.asm\";\n")), false),
+	];
+	for (vname, main, mid, must) in variants.iter()
+	{
+		std::fs::write(dir.join("main.asm"), main).unwrap();
+		std::fs::write(dir.join("inc.asm"), format!("{imports}{stmts}")).unwrap();
+		if let Some(m) = mid {std::fs::write(dir.join("mid.asm"), m).unwrap();}
+		let path = dir.join("main.asm");
+		let r = guarded(||
+		{
+			let directives = DirectiveList::generate();
+			let mut ctx = Context::new(&Arm6M, &directives);
+			drop(ctx.assemble(main.as_bytes(), path.clone()));
+			if ctx.close_segment().is_err() || !ctx.finalize()
+			{
+				return Err(ctx.get_errors().iter().take(3).map(|e| format!("{}:{}:{}", e.name.rsplit('/').next().unwrap_or(""), e.line, crate::errkind::diag_kind(&e.value))).collect::<Vec<_>>().join("; "));
+			}
+			let mut out = Vec::new();
+			for (range, data) in ctx.output().iter() {if range.get_first() == 0x100 {out.extend_from_slice(data);}}
+			Ok(out)
+		});
+		match r
+		{
+			Err(p) => cx.report.oracle_fail(input.clone(), format!("{vname}: panic: {p}")),
+			Ok(Err(why)) =>
+			{
+				cx.report.hit(&format!("e2e {vname}: diagnosed"));
+				if *must {cx.report.oracle_fail(input.clone(), format!("{vname}: refused ({why}) although the single file with the same definitions assembles; main.asm = {main:?}"));}
+			},
+			Ok(Ok(b)) =>
+			{
+				cx.report.hit(&format!("e2e {vname}: assembles"));
+				if b != single {cx.report.oracle_fail(input.clone(), format!("{vname}: the statements emit {}, in a single file {}; main.asm = {main:?}", hex(&b), hex(&single)));}
+			},
+		}
+	}
 }
 
 fn assemble(text: &str) -> Result<Vec<u8>, String>
